@@ -116,9 +116,9 @@ def assign_forms(rng, case, preserve=False):
             f = "F64" if r < 0.45 else (rng.choice(accepted_pool) if r < 0.8 else rng.choice(pool))
         else:
             f = choose_array_form(rng, 0.25, pool)
-            if kind == "svd" and arg == "W" and f in ("F32", "U8", "FBool") and ("near_dup_col" in case["tags"] or "scaled" in case["tags"]):
-                f = "F64"    # invert_svd works in single precision on such a matrix: ill-conditioned systems, and scaled ones whose
-                             # solution leaves the float32 range (it returns inf there), are not asked of it
+            if kind == "svd" and arg == "W" and f in ("F32", "U8", "FBool") and "near_dup_col" in case["tags"]:
+                f = "F64"    # invert_svd works in single precision on such a matrix: systems that are ill-conditioned relative to
+                             # float32 are not asked of it (scaled ones are: a solution outside the float32 range is a known finding)
         if f == "F32" and arg == "L" and "alpha" in case:
             al = np.abs(case["alpha"] * a)
             if not np.all((al == 0) | ((al > 1e-30) & (al < 1e30))):
